@@ -83,8 +83,25 @@ func (p *zzRef) opPos(op zzPTok) string {
 	return zzPos(op.line, op.col)
 }
 
+// binLevel: precedence level of t used as a binary operator, or -1. A token
+// is classified by what it is, not by the role the harness gave it: `-` and
+// `+` are binary (level 8) or unary depending on where they stand.
+func zzBinLevel(t zzPTok) int {
+	if t.kind == 1 {
+		return t.level
+	}
+	if t.kind == 2 && (t.tok == MINUS || t.tok == PLUS) {
+		return 8
+	}
+	return -1
+}
+
+func zzIsPrefix(t zzPTok) bool {
+	return t.kind != 0 && (t.tok == MINUS || t.tok == PLUS || t.tok == TILDE)
+}
+
 func (p *zzRef) peekBin(level int) bool {
-	return p.i < len(p.toks) && p.toks[p.i].kind == 1 && p.toks[p.i].level == level
+	return p.i < len(p.toks) && zzBinLevel(p.toks[p.i]) == level
 }
 
 func (p *zzRef) binLeft(level int, next func() string) string {
@@ -135,7 +152,7 @@ func (p *zzRef) factor() string {
 	}
 	t := p.toks[p.i]
 	switch {
-	case t.kind == 2 && t.tok != NOT:
+	case zzIsPrefix(t):
 		p.i++
 		x := p.factor()
 		return "(" + t.text + zzPos(t.line, t.col) + " " + x + ")"
@@ -194,8 +211,12 @@ var zzSeps = []string{" ", "  ", " \\\n ", "\t"}
 // zzOperand appends a symbolic operand: a one-letter identifier or a one-digit int.
 func (b *zzSrc) operand(i int) {
 	name := "x" + strconv.Itoa(i)
-	if i >= 2 { // only the first two operands are symbolic (each symbolic byte costs ~25 solver calls per path)
-		b.add(0, string([]byte{'a' + byte(i)}), IDENT, -1)
+	if i >= zzParam("symbolic_operands", 1, 2) { // the others are concrete (each symbolic byte costs ~25 solver calls per path)
+		if i == 1 {
+			b.add(0, "7", INT, -1)
+		} else {
+			b.add(0, string([]byte{'a' + byte(i)}), IDENT, -1)
+		}
 		return
 	}
 	if i%2 == 1 {
@@ -207,6 +228,20 @@ func (b *zzSrc) operand(i int) {
 	id := zzString(name, 1)
 	zzAssume(zzB(id[0], 'c', 'q')) // one scanner class (not the string prefixes r, b); other letters: H14.2
 	b.add(0, id, IDENT, -1)
+}
+
+// zzRepOps: one operator per precedence level (quick tier of the unary harness).
+var zzRepOps = []int{0, 1, 2, 9, 10, 11, 12, 13, 15, 17}
+
+func (b *zzSrc) binopRep(name string, sep string) {
+	k := zzChoice(name, zzParam("unary_ops", len(zzRepOps), len(zzBinOps)))
+	if zzParam("unary_ops", len(zzRepOps), len(zzBinOps)) == len(zzRepOps) {
+		k = zzRepOps[k]
+	}
+	o := zzBinOps[k]
+	b.raw(sep)
+	b.add(1, o.text, o.tok, o.level)
+	b.raw(" ")
 }
 
 func (b *zzSrc) binop(name string, sep string) {
@@ -284,14 +319,15 @@ func zzH14_prec4() {
 	zzReach("end")
 }
 
-// zzH14_unary: U1 x OP U2 y with U in {none, -, +, ~, not}: unary operators
+// zzH14_unary: U1 x OP U2 y with U in {none, -, +, ~, not} and OP over one
+// operator per precedence level (thorough: all 21): unary operators
 // bind tighter than every binary operator, `not` sits between `and` and the
 // comparisons and is rejected where a primary is required.
 func zzH14_unary() {
 	b := &zzSrc{line: 1, col: 1}
 	b.unop("u1", len(zzUnOps))
 	b.operand(0)
-	b.binop("op", " ")
+	b.binopRep("op", " ")
 	b.unop("u2", len(zzUnOps))
 	b.operand(1)
 	zzCheckParse(b, "unary")
@@ -431,4 +467,51 @@ func zzShowCond(e Expr) string {
 		return "(" + zzShowCond(e.X) + " " + zzOpText(e.Op) + zzP(p) + " " + zzShowCond(e.Y) + ")"
 	}
 	return zzShow(e)
+}
+
+// zzH14_nearmiss: one token of the valid text `x OP1 y OP2 z` is deleted,
+// duplicated, or swapped with its right neighbour. The result is accepted
+// exactly when the reference grammar still derives it (e.g. `x - - z`), and
+// then with the reference tree; otherwise ParseExpr returns a positioned Error.
+func zzH14_nearmiss() {
+	nops := zzParam("nearmiss_ops", 5, len(zzBinOps))
+	pick := func(name string) zzOp {
+		k := zzChoice(name, nops)
+		if nops == 5 {
+			k = []int{0, 2, 9, 15, 17}[k] // or == `not in` - *
+		}
+		return zzBinOps[k]
+	}
+	o1, o2 := pick("op1"), pick("op2")
+	x := zzString("x0", 1)
+	zzAssume(zzB(x[0], 'c', 'q'))
+	base := []zzPTok{
+		{kind: 0, text: x, tok: IDENT, level: -1},
+		{kind: 1, text: o1.text, tok: o1.tok, level: o1.level},
+		{kind: 0, text: "7", tok: INT, level: -1},
+		{kind: 1, text: o2.text, tok: o2.tok, level: o2.level},
+		{kind: 0, text: "z", tok: IDENT, level: -1},
+	}
+	m := zzChoice("mutation", 14)
+	var seq []zzPTok
+	switch {
+	case m < 5: // delete token m
+		seq = append(append(seq, base[:m]...), base[m+1:]...)
+	case m < 10: // duplicate token m-5
+		k := m - 5
+		seq = append(append(append(seq, base[:k+1]...), base[k]), base[k+1:]...)
+	default: // swap tokens k, k+1
+		k := m - 10
+		seq = append(seq, base...)
+		seq[k], seq[k+1] = seq[k+1], seq[k]
+	}
+	b := &zzSrc{line: 1, col: 1}
+	for i, t := range seq {
+		if i > 0 {
+			b.raw(" ")
+		}
+		b.add(t.kind, t.text, t.tok, t.level)
+	}
+	zzCheckParse(b, "nearmiss")
+	zzReach("end")
 }
